@@ -8,3 +8,46 @@ package eval
 //@ func Eval[chess.Score] view search
 //@   trusted read-only (checked mechanically: no stores to non-local memory in its call tree)
 //@   modifies nothing
+//@
+//@ # ---- C17 (position-only clause): the evaluation's whole call tree reads nothing of the board but
+//@ # ---- piece sets, colour sets, side to move and the halfmove clock, and writes nothing outside its
+//@ # ---- own frame: it cannot depend on castling rights, e.p. state, move number, hash history or on
+//@ # ---- earlier evaluations.  Checked mechanically on the SSA of every function reachable from Eval.
+//@ func Eval[chess.Score]
+//@   props C17
+//@   reads-only b: Pieces Colors STM FiftyCnt
+//@   no-writes
+//@
+//@ # ---- C17 (colour symmetry), helper level: every loop-free helper computes for a position what it
+//@ # ---- computes for the mirror image (ranks flipped, colours and side to move exchanged)
+//@ import geom.smt2
+//@ define mirrored(b1, b2) = all(i, 0, 6, b2.Pieces[i] == mirrorBB(b1.Pieces[i])) && b2.Colors[0] == mirrorBB(b1.Colors[1]) && b2.Colors[1] == mirrorBB(b1.Colors[0]) && b2.STM == b1.STM ^ 1 && b2.FiftyCnt == b1.FiftyCnt && b1.STM <= 1
+//@
+//@ lemma knbvkSymmetric(b1 *Board, b2 *Board)
+//@   props C17
+//@   hyp mirrored(b1, b2)
+//@   concl body(KNBvK(b1)) == body(KNBvK(b2))
+//@
+//@ lemma frontFillSymmetric(x BitBoard, c Color)
+//@   props C17
+//@   hyp c <= 1
+//@   concl body(frontFill(mirrorBB(x), c ^ 1)) == mirrorBB(body(frontFill(x, c)))
+//@
+//@ lemma chebishevSymmetric(a Square, b Square)
+//@   props C17
+//@   hyp 0 <= a && a < 64 && 0 <= b && b < 64
+//@   concl body(Chebishev(a ^ 56, b ^ 56)) == body(Chebishev(a, b))
+//@
+//@ lemma pawnAttacksSymmetric(x BitBoard, c Color)
+//@   props C17
+//@   hyp c <= 1
+//@   concl body(attacks.PawnCaptureMoves(mirrorBB(x), c ^ 1)) == mirrorBB(body(attacks.PawnCaptureMoves(x, c)))
+//@   concl body(attacks.PawnSinglePushMoves(mirrorBB(x), c ^ 1)) == mirrorBB(body(attacks.PawnSinglePushMoves(x, c)))
+//@
+//@ lemma slidersSymmetric(s Square, occ BitBoard)
+//@   props C17
+//@   hyp 0 <= s && s < 64
+//@   concl rookWalk(uint8(s ^ 56), mirrorBB(occ)) == mirrorBB(rookWalk(uint8(s), occ))
+//@   concl bishopWalk(uint8(s ^ 56), mirrorBB(occ)) == mirrorBB(bishopWalk(uint8(s), occ))
+//@   concl kingSet(sqbit(uint8(s ^ 56))) == mirrorBB(kingSet(sqbit(uint8(s))))
+//@   concl knightSet(sqbit(uint8(s ^ 56))) == mirrorBB(knightSet(sqbit(uint8(s))))
